@@ -3,8 +3,8 @@
    Model: Model/Grid.v (affine kernels) + Model/C01_Area.v (accessors), instantiated with the reals (RO).
    wf_area a  :=  1 <= width, 1 <= height, xmin <> xmax, ymin <> ymax   (flipped areas, ymin > ymax, are included). *)
 From Coq Require Import Reals ZArith List Lia Lra Bool.
-From PR Require Import Base.Num Base.RNum Model.Grid Model.C01_Area
-     Proofs.Grid_real Proofs.C01_grid Proofs.C01_index Proofs.C01_lonlat.
+From PR Require Import Base.Num Base.RNum Base.F64 Model.Grid Model.C01_Area Gen.GenC01
+     Proofs.Grid_real Proofs.C01_grid Proofs.C01_index Proofs.C01_lonlat Proofs.C01_gen.
 Import ListNotations.
 Open Scope R_scope.
 
@@ -67,6 +67,18 @@ Proof.
   - apply proj_of_arr_y_canonical.
 Qed.
 Print Assumptions C01_inverses.
+(* the same for the definitions REGENERATED from /repo's current source on every run (coq/Gen/GenC01.v):
+   get_projection_coordinates_from_array_coordinates and get_array_coordinates_from_projection_coordinates, with
+   _get_corner_and_scale inlined, are mutual inverses and the canonical map *)
+Theorem C01_source_inverses : forall a : area R, wf_area a ->
+  (forall c r, let '(x, y) := gen01_projection_coordinates_from_array_coordinates RO a c r in
+               gen01_array_coordinates_from_projection_coordinates RO a x y = (c, r)) /\
+  (forall x y, let '(c, r) := gen01_array_coordinates_from_projection_coordinates RO a x y in
+               gen01_projection_coordinates_from_array_coordinates RO a c r = (x, y)) /\
+  (forall c r, gen01_projection_coordinates_from_array_coordinates RO a c r =
+               (xmin a + (c + /2) * dxR a, ymax a - (r + /2) * dyR a)).
+Proof. exact gen01_inverses. Qed.
+Print Assumptions C01_source_inverses.
 Example C01_wf_ex : wf_area (mk_area 0 0 4 2 4%Z 2%Z) /\ wf_area (mk_area (-3) 5 3 (-5) 6%Z 4%Z).
 Proof. unfold wf_area; cbn. repeat split; try lia; lra. Qed.
 
@@ -115,6 +127,10 @@ Proof.
   - intros H. apply c01_index_axis_sound in H; tauto.
 Qed.
 Print Assumptions C01_index_nearest.
+(* in binary64 a NaN coordinate is masked / rejected as well (the real-number theorems have no NaN) *)
+Example C01_nan_masked_ex : c01_masked_index F64 5 PrimFloat.nan = None /\
+  c01_index_scalar F64 (mk_area 0 0 4 2 4%Z 2%Z)%float PrimFloat.nan 1%float = None.
+Proof. split; vm_compute; reflexivity. Qed.
 Example C01_index_ex : 1 <= 4 /\ (0 <= 2 <= 4 - 1)%Z /\ IZR 2 - /2 < 2.25 < IZR 2 + /2.
 Proof. split; [lra|]. split; [lia|lra]. Qed.
 
